@@ -229,7 +229,7 @@ def r3_implicit_operators(ctx) -> None:
                 vcls = "SigmaCIDRExpression"
             self_groups = "parent_chain_condition_classes" in unparse(f.node) and "self.group_expression.format" in unparse(f.node) \
                 and not any(isinstance(x, ast.Return) and isinstance(x.value, ast.Call) and call_name(x.value).startswith("self.convert_condition") for x in walk_no_nested(f.node)
-                            if x.lineno > c.lineno)
+                            if getattr(x, "lineno", 0) > c.lineno)
             if vcls in special:
                 r.ok("C01.R3", q, f"{call_name(c)}(...) for {vcls}: special-cased in compare_precedence", loc)
             elif self_groups:
